@@ -1,5 +1,6 @@
 """C03 - one optimizer iteration is exactly the Gauss-Newton step (engine E1 over configurations)."""
 import itertools
+import math
 
 import numpy as np
 
@@ -16,7 +17,7 @@ TOL = 1e-9
 
 META = {
     "rule": "graph-shape family F(n,m) (families.py): n in {2,3} vertices of every type multiset, every multiset of 1..m candidate edges (type-correct odometry/landmark "
-    "edges on every ordered pair, unary prior, ternary custom edges; duplicates = parallel edges). Sub-products: A = x every fixed subset x fix_first_pose x every vertex "
+    "edges on every ordered pair, unary prior, ternary custom edges; duplicates = parallel edges). Sub-products: L = larger graphs (SLAM families with 4..33 (thorough 64) poses, a 9-landmark star, two components with their own anchors, a degree-5 hub, 33-vertex R^n chains) x 3 vertex list orders x fix_first_pose; A = x every fixed subset x fix_first_pose x every vertex "
     "list permutation; B = x every edge-list permutation; C = x id maps (negative, sparse, huge, id 0 on a non-first vertex) x fix_first_pose, and information scaled by 1e-9 x every fixed subset; P = all vertices initialised from ONE shared pose object x every non-empty fixed subset; H = histories: one iteration under fixed set S1, flags changed to S2 (every ordered pair of non-empty subsets), the next iteration is judged. Ill-posed configurations (a component without fixed vertex, or reduced "
     "Hessian cond > 1e6, by the reference) are counted and skipped. Oracle: poses after optimize(max_iter=1) = pose [+] dx_ref (dense reduced normal equations assembled by "
     "vertex identity). non-trivial = at least one free vertex moves by more than 1e-6",
@@ -24,11 +25,52 @@ META = {
         "e, J, Omega are taken from the edges themselves (C01/C02 own them); numpy dense solve/cond trusted",
         "tolerance 1e-9 x (1 + |dx| + translation scale) x max(1, cond/1e3)",
     ],
-    "required_classes": ["far_apart", "shared_pose_object", "weak_information", "history", "parallel_edges", "edge_high_index_first", "mixed_dimensions", "two_or_more_fixed", "custom_unary", "custom_ternary", "ffp_true", "ffp_false", "ids_special", "edge_order_permuted", "isolated_fixed_vertex"],
+    "required_classes": ["large_graph", "far_apart", "shared_pose_object", "weak_information", "history", "parallel_edges", "edge_high_index_first", "mixed_dimensions", "two_or_more_fixed", "custom_unary", "custom_ternary", "ffp_true", "ffp_false", "ids_special", "edge_order_permuted", "isolated_fixed_vertex"],
     "bounds": {"quick": "n=2: m<=3; n=3: m<=2, vertex orders {identity, reversed, rotated}", "thorough": "n=2: m<=4; n=3: m<=3, all 6 vertex orders"},
 }
 
 ID_MAPS = [[7, -5, 1000], [2**40, 3, 2**63 - 1], [-1, -2, -3], [5, 0, -7]]
+
+
+def large_specs(tier, seed):
+    """beyond three vertices: sizes around powers of two, a star with many landmarks on one pose, two components with their own
+    anchors, a hub of degree >= 4, long R^n chains (sorting / chunking / index arithmetic / sparse structure only show there)."""
+    from .. import slamfam as SF
+
+    out = []
+    sizes = (4, 5, 8, 17, 33) if tier == "quick" else (4, 5, 7, 8, 9, 16, 17, 32, 33, 64)
+    for kind in ("SE2", "SE3"):
+        for n in sizes:
+            for fam in SF.FAMILIES[kind][:2]:
+                spec, _ = SF.make(fam, kind, n, "sin", "sin", 0.2 if kind == "SE2" else 0.1, 0.1 if kind == "SE2" else 0.05, 0.02, seed)
+                out.append(("%s-%s-%d" % (fam, kind, n), spec))
+    # star: one pose, many landmarks
+    for kind, pk, d in (("SE2", "R2", 2), ("SE3", "R3", 3)):
+        pose = F.vertex_pose(kind, 0, seed)
+        vs = [{"id": 0, "kind": kind, "pose": pose, "fixed": True}]
+        es = []
+        for k in range(9):
+            lm = [0.7 * math.cos(0.7 * k) * (k + 1), 0.5 * math.sin(1.1 * k) * (k + 1), 0.3 * k][:d]
+            vs.append({"id": 10 + k, "kind": pk, "pose": lm, "fixed": False})
+            es.append({"type": "lm", "ids": [0, 10 + k], "z": [0.1 * k, -0.2, 0.3][:d], "off": F._offset(kind, k), "om": A.spd(d, seed, "st%d" % k)})
+        out.append(("star-" + kind, {"vertices": vs, "edges": es}))
+    # two components, each with its own anchor; and a hub of degree 5
+    for kind in ("R2", "SE2"):
+        c = I.COMPACT[kind]
+        vs = [{"id": i, "kind": kind, "pose": F.vertex_pose(kind, i, seed), "fixed": i in (0, 3)} for i in range(6)]
+        es = [{"type": "odo", "ids": [a, b], "z": F._meas(kind, k, seed), "om": A.spd(c, seed, "tc%d" % k)} for k, (a, b) in enumerate([(0, 1), (1, 2), (2, 0), (3, 4), (5, 4), (3, 5)])]
+        out.append(("two-components-" + kind, {"vertices": vs, "edges": es}))
+        vs = [{"id": i, "kind": kind, "pose": F.vertex_pose(kind, i, seed), "fixed": i == 2} for i in range(6)]
+        es = [{"type": "odo", "ids": ([0, j] if j % 2 else [j, 0]), "z": F._meas(kind, j, seed), "om": A.spd(c, seed, "hb%d" % j)} for j in range(1, 6)]
+        out.append(("hub-" + kind, {"vertices": vs, "edges": es}))
+    for kind in ("R2", "R3"):
+        c = I.COMPACT[kind]
+        n = 33
+        vs = [{"id": i, "kind": kind, "pose": [math.sin(0.3 * i + a) * (1 + 0.1 * i) for a in range(c)], "fixed": i == 16} for i in range(n)]
+        es = [{"type": "odo", "ids": [i, i + 1], "z": [0.1 * ((i + a) % 3) for a in range(c)], "om": A.spd(c, seed, "ch%d" % (i % 4))} for i in range(n - 1)]
+        es += [{"type": "lm", "ids": [i + 5, i], "z": [0.2] * c, "off": [0.1] * c, "om": A.spd(c, seed, "cl%d" % (i % 3))} for i in range(0, n - 5, 4)]
+        out.append(("chain33-" + kind, {"vertices": vs, "edges": es}))
+    return out
 
 
 def _m(n, tier):
@@ -45,7 +87,7 @@ def _vorders(n, tier):
 
 
 def chunks(tier, seed):
-    out = []
+    out = [("L", 0, k, 0, 1) for k in range(len(large_specs(tier, seed)))]
     for n in (2, 3):
         for ti, types in enumerate(F.type_multisets(n)):
             nc = len(F.candidate_edges(types, seed))
@@ -59,6 +101,13 @@ def chunks(tier, seed):
 def run_chunk(chunk, tier, seed):
     sub, n, ti, part, parts = chunk
     acc = Acc(ID, signature)
+    if sub == "L":
+        name, spec = large_specs(tier, seed)[ti]
+        nv = len(spec["vertices"])
+        for vo in ("as_listed", "reversed", "interleaved"):
+            for ffp in (False, True):
+                _do(acc, {"large": name, "tier": tier, "seed": seed, "vorder": vo, "ffp": ffp, "types": None, "edges": None, "fixed": None, "eorder": None, "ids": None})
+        return acc
     types = F.type_multisets(n)[ti]
     cands = F.candidate_edges(types, seed)
     m = _m(n, tier)
@@ -141,6 +190,18 @@ def signature(case, msgs):
 
 
 def spec_of(case):
+    if case.get("large"):
+        import copy as _c0
+
+        spec = _c0.deepcopy(dict(large_specs(case["tier"], case["seed"]))[case["large"]])
+        vs = spec["vertices"]
+        if case["vorder"] == "reversed":
+            vs = vs[::-1]
+        elif case["vorder"] == "interleaved":
+            vs = vs[1::2] + vs[0::2]
+        spec["vertices"] = vs
+        spec["edges"] = spec["edges"][::2] + spec["edges"][1::2]
+        return spec
     types = case["types"]
     spec = F.make_spec(types, case["seed"], case["edges"], case["fixed"], case["vorder"], case["eorder"], case["ids"])
     if case.get("far"):
@@ -160,6 +221,8 @@ def spec_of(case):
 
 
 def classes_of(case, spec, fixed_eff):
+    if case.get("large"):
+        return ["large_graph", "ffp_true" if case["ffp"] else "ffp_false"]
     cl = []
     ms = case["edges"]
     if len(set(ms)) < len(ms):
